@@ -91,26 +91,53 @@ class Model:
         self.reqs.append(sx_dump(req))
         return len(self.reqs) - 1
 
-    def run(self):
+    def _run_lines(self, lines, timeout):
+        data = ("\n".join(lines) + "\n").encode()
+        # cap address space (a garbage element count makes Z.to_nat build a huge unary nat) and time
+        p = subprocess.run(["bash", "-c", "ulimit -s unlimited 2>/dev/null; ulimit -v 6000000; exec %s" % os.path.join(OCAML, "driver")],
+                           input=data, stdout=subprocess.PIPE, stderr=subprocess.PIPE, timeout=timeout)
+        out = p.stdout.decode().split("\n")
+        if out and out[-1] == "":
+            out.pop()
+        return p.returncode, out, p.stderr.decode()[-400:]
+
+    def run(self, timeout=900):
         if not self.reqs:
             return []
-        data = ("\n".join(self.reqs) + "\n").encode()
-        p = subprocess.run(["bash", "-c", "ulimit -s unlimited 2>/dev/null; exec %s" % os.path.join(OCAML, "driver")],
-                           input=data, stdout=subprocess.PIPE, stderr=subprocess.PIPE, timeout=3600)
-        lines = p.stdout.decode().split("\n")
-        if lines and lines[-1] == "":
-            lines.pop()
-        if p.returncode != 0 or len(lines) != len(self.reqs):
-            raise RuntimeError("model driver failed rc=%s replies=%d/%d stderr=%s"
-                               % (p.returncode, len(lines), len(self.reqs), p.stderr.decode()[-400:]))
-        out = []
-        for l in lines:
+        lines, self.reqs = self.reqs, []
+        try:
+            rc, out, err = self._run_lines(lines, timeout)
+        except subprocess.TimeoutExpired:
+            rc, out, err = -9, [], "timeout"
+        if rc != 0 or len(out) != len(lines):
+            # isolate: the driver died on request number len(out); mark it and continue after it
+            done = list(out)
+            rest = lines[len(done):]
+            guard = 0
+            while rest and guard < 50:
+                guard += 1
+                done.append("!model-died")
+                rest = rest[1:]
+                if not rest:
+                    break
+                try:
+                    rc, out, err = self._run_lines(rest, timeout)
+                except subprocess.TimeoutExpired:
+                    rc, out = -9, []
+                done.extend(out)
+                rest = rest[len(out):]
+                if rc == 0 and not rest:
+                    break
+            if len(done) != len(lines):
+                raise RuntimeError("model driver failed repeatedly: %s" % err)
+            out = done
+        res = []
+        for l in out:
             if l.startswith("!"):
-                out.append(("driver-error", l))
+                res.append(("driver-error", l))
             else:
-                out.append(sx_load(l))
-        self.reqs = []
-        return out
+                res.append(sx_load(l))
+        return res
 
 
 def model_batch(reqs):
@@ -404,3 +431,56 @@ def finish(ctx, props_res, build_info, level="proof", extra_trusted=()):
           % (pid, ctx.tier, ctx.seed, ctx.cov["evaluations"], ctx.cov["distinct_nontrivial"], discharged, obligations,
              len(viol), len(known_hit), ctx.elapsed()))
     return rc
+
+
+def exc_name(g, e):
+    """Map an implementation exception to the small enum the model uses."""
+    import struct
+    ser = g.serialization
+    table = [
+        (ser.TypeNameError, "TypeNameError"), (ser.UnknownCodecError, "UnknownCodecError"),
+        (ser.EncodeError, "EncodeError"), (ser.DecodeError, "DecodeError"),
+        (g.util.DeserializationError, "DeserializationError"),
+        (struct.error, "struct.error"), (OverflowError, "OverflowError"), (KeyError, "KeyError"),
+        (IndexError, "IndexError"), (ValueError, "ValueError"), (TypeError, "TypeError"),
+        (AttributeError, "AttributeError"),
+    ]
+    for cls, nm in table:
+        if isinstance(e, cls):
+            return nm
+    return type(e).__name__
+
+
+def model_result(rep):
+    """(0 x ...) -> ('ok', rest...) ; (-1 code) -> ('err', name)"""
+    if isinstance(rep, tuple):
+        return ("err", rep[1])
+    if isinstance(rep, list) and rep and rep[0] == -1:
+        return ("err", ERR_CODES.get(rep[1], "code%d" % rep[1]))
+    return ("ok",) + tuple(rep[1:])
+
+
+class ImplTimeout(Exception):
+    pass
+
+
+class time_limit:
+    """with time_limit(2.0): ...   raises ImplTimeout inside the block when the implementation hangs"""
+
+    def __init__(self, seconds):
+        self.seconds = seconds
+
+    def _handler(self, signum, frame):
+        raise ImplTimeout("implementation call exceeded %.1fs" % self.seconds)
+
+    def __enter__(self):
+        import signal
+        self._old = signal.signal(signal.SIGALRM, self._handler)
+        signal.setitimer(signal.ITIMER_REAL, self.seconds)
+        return self
+
+    def __exit__(self, *a):
+        import signal
+        signal.setitimer(signal.ITIMER_REAL, 0)
+        signal.signal(signal.SIGALRM, self._old)
+        return False
